@@ -293,6 +293,16 @@ func DrawScript(r *Rng, cfg ScriptConfig, m *ModuleSpec, name string) proto.GenS
 				rule.Defers = append(rule.Defers, proto.Rule{Render: []proto.Part{{Text: fmt.Sprintf("\nfunc OnlyDeferred_%s_%s() {}\n", sanitize(name), td.Name)}}})
 			default:
 				rule.Render = drawParts(r, cfg, m, pi, td, name, r.Range(1, 2))
+				if r.P(0.15) || td.Kind == "generic" {
+					// what is this type called - asked through its object and through its qualified name; generators
+					// that share a world ask in different orders, so that two files of one run disagree if the answer
+					// depends on what was asked first
+					flip, ok := map[string]bool{"x": false, "xy": true, "x:y": true, "a": false, "ab": true, "a:b": false, "g1": false, "g2": true}[name]
+					if !ok {
+						flip = len(name)%2 == 0
+					}
+					rule.Render = append(rule.Render, proto.Part{Names: true, Flip: flip})
+				}
 				if imps := m.Pkgs[pi].Imports; len(imps) > 0 && r.P(0.2) {
 					// where does a type of an imported package live?
 					j := Pick(r, imps)
